@@ -472,7 +472,11 @@ func TestC15(t *testing.T) {
 				i := rapid.IntRange(0, len(words)-1).Draw(rt, "wi")
 				j := rapid.IntRange(i, min(len(words)-1, i+3)).Draw(rt, "wj")
 				frag := strings.Join(words[i:j+1], " ")
-				switch rapid.IntRange(0, 8).Draw(rt, "reform") {
+				switch rapid.IntRange(0, 10).Draw(rt, "reform") {
+				case 9:
+					return "^" + regexp.QuoteMeta(frag) + "$" // anchored at both ends: matches only when the fragment is the whole message
+				case 10:
+					return `\A` + regexp.QuoteMeta(frag) + `\z`
 				case 0:
 					return "(?i)" + regexp.QuoteMeta(strings.ToUpper(frag))
 				case 6:
